@@ -41,6 +41,8 @@ use crate::{
 };
 
 mod remote_state;
+#[cfg(iroh_verif)]
+pub(crate) use self::remote_state::verif_c23;
 
 // TODO: use this
 // /// Number of endpoints that are inactive for which we keep info about. This limit is enforced
